@@ -153,6 +153,7 @@ enum
     PT_OUT_PART = 23,
     PT_IN_WAIT = 24,
     PT_SPAWN = 25,
+    PT_CLOCK = 26,         // a read of the (simulated) steady clock by a search thread
 };
 
 }  // namespace sim
